@@ -201,3 +201,38 @@ def extract(asts, aliases) -> dict:
     mods = [module(t, info_bases) for t in asts]
     return {"modules": mods, "aliases": [[k, list(v)] for k, v in aliases.items()],
             "info_bases": [[k, v] for k, v in info_bases.items()]}
+
+
+def alias_facts(result_types, bound_fullname) -> tuple[list[dict], dict]:
+    """What `_get_aliases` reads of each entry of `build_result.types`, in dict order (keys of the three expression
+    classes it looks at only; the others are counted).  `bound_fullname` is the tool's own `_get_bound_type_fullname`."""
+    facts = []
+    stats = {"other_keys": 0, "callable_with_type": 0}
+    for key, v in result_types.items():
+        if isinstance(key, N.NameExpr):
+            k = "n"
+        elif isinstance(key, N.MemberExpr):
+            k = "m"
+        elif isinstance(key, N.TypeVarExpr):
+            k = "t"
+        else:
+            stats["other_keys"] += 1
+            continue
+        f = {"k": k, "n": key.name, "f": key.fullname or ""}
+        if k == "n":
+            node = getattr(key, "node", None)
+            if isinstance(node, N.TypeAlias) and isinstance(node.target, T.Instance):
+                f["nk"], f["nf"] = "alias", node.target.type.fullname
+            elif isinstance(node, N.Var):
+                f["nk"], f["nf"] = "var", node.fullname
+        has_type = hasattr(v, "type") and getattr(v, "type", None) is not None
+        if isinstance(v, T.Instance):
+            f["vk"], f["vn"], f["vf"] = "inst", v.type.name, v.type.fullname
+        elif isinstance(v, T.CallableType):
+            if has_type:
+                stats["callable_with_type"] += 1      # the model assumes this never happens
+            f["vk"], f["vf"] = "call", bound_fullname(v)
+        elif has_type:
+            f["vk"], f["vn"], f["vf"] = "typed", v.type.name, v.type.fullname
+        facts.append(f)
+    return facts, stats
